@@ -122,6 +122,10 @@ impl<'a> ParseContext<'a> {
         loc_key: LocKey,
         matcher_key: MatchableCacheKey,
     ) -> Option<MatchResult> {
+        #[cfg(sqruff_verif)]
+        if crate::parser::match_algorithms::verif_switches::cache_off() {
+            return None;
+        }
         self.parse_cache
             .get(&CacheKey::new(loc_key, matcher_key))
             .cloned()
